@@ -421,7 +421,35 @@ def gen_lines(g, n):
         flat = " ".join(hx(x) for row in M for x in row)
         add("howell", "howell %x %x %s %s" % (rows, cols, hx(m), flat))
         add("howell", "kermod %x %x %s %s" % (rows, cols, hx(m), flat))
+    # --- represent_integer / represent_integer_non_diag: the real functions (level 1 constants) over a byte stream
+    pL = vlib.LEVELS[1]["p"]
+    trials = klpt_trials()
+    nrep = max(4, n // 1500)
+    for i in range(nrep):
+        nd = i % 2
+        c = r.below(10)
+        if c == 0:
+            tgt = r.bits(1 + r.below(240)) + 1; cl = "4n<p (empty first interval)"
+            stream = bytes(r.below(256) for _ in range(64))
+        elif c == 1:
+            tgt = pL * 2 ** r.below(12) + r.bits(200); cl = "n~p"
+            stream = bytes(r.below(256) for _ in range(40000))
+        elif c == 2:
+            ub = r.choice([100, 124]); u = r.bits(ub) | 1 | (1 << (ub - 1)); L = pL.bit_length() + 15 - ub
+            tgt = u * (2 ** L - u); cl = "stream-too-short"
+            stream = bytes(r.below(256) for _ in range(1 + r.below(12)))
+        else:
+            ub = r.choice([90, 100, 110, 120, 124, 126, 130]); u = r.bits(ub) | 1 | (1 << (ub - 1)); L = pL.bit_length() + 15 - ub
+            tgt = u * (2 ** L - u); cl = "fixed-degree-like u(2^L-u)"
+            stream = bytes(r.below(256) for _ in range(40000))
+        g.count("repint:" + cl)
+        add("repint", "repint %x %x %s %s %s" % (nd, trials, hx(pL), hx(tgt), stream.hex()))
     return out
+
+
+def klpt_trials():
+    txt = open(os.path.join(vlib.REPO, "src", "precomp", "ref", "lvl1", "include", "klpt_constants.h")).read()
+    return int(re.search(r"#define\s+KLPT_repres_num_gamma_trial\s+(\d+)", txt).group(1))
 
 
 def vlib_v2(x):
@@ -686,6 +714,16 @@ def oracle(line, res):
                 v = list(map(I, R[1:]))
                 if all(x % 2 == 0 for x in v) or any(sum(M[i][j] * v[j] for j in range(4)) % 2**e for i in range(4)):
                     return bad("ibz_4x4_right_ker_mod_power_of_2: returned vector is not a primitive kernel vector")
+        elif op == "repint":
+            pL, n = I(args[2]), I(args[3])
+            if R[0] == "1":
+                nout = I(R[1]); c0, c1, c2, c3, den = map(I, R[2:7])
+                if den != 2 or c0 * c0 + c1 * c1 + pL * (c2 * c2 + c3 * c3) != 4 * nout:
+                    return bad("represent_integer: returned element does not have the returned norm")
+                if nout <= 0 or n % nout != 0 or not is_square(n // nout):
+                    return bad("represent_integer: returned norm is not the target divided by a square")
+                if (c0 - c3) % 2 or (c1 - c2) % 2 or math.gcd(math.gcd((c0 - c3) // 2, (c1 - c2) // 2), math.gcd(c2, c3)) != 1:
+                    return bad("represent_integer: returned element is not a primitive element of the standard order")
         elif op in ("howell", "kermod"):
             rows, cols, m = I(args[0]), I(args[1]), I(args[2]); es = list(map(I, args[3:]))
             M = [es[i * cols:(i + 1) * cols] for i in range(rows)]
@@ -713,6 +751,10 @@ def oracle(line, res):
     except (IndexError, ValueError):
         return bad("unparsable result %r" % res)
     return None
+
+
+def is_square(v):
+    return v >= 0 and math.isqrt(v) ** 2 == v
 
 
 def complex_pow(a, e):
@@ -824,7 +866,7 @@ def ubsan_replay(ctx):
     except vlib.BuildError as e:
         ctx.log("sanitizer build failed: %s" % str(e)[-300:])
         return None
-    exe = ctx.cc_harness(HARNESS, os.path.join(ctx.tmp, "drv_int_san"), 1, san=True, build=b)
+    exe = ctx.cc_harness(HARNESS, os.path.join(ctx.tmp, "drv_int_san"), 1, san=True, build=b, defs=("DRV_NO_KLPT",))
     res = {}
     for name, line in (("witness", "randint 0 ffffffffffffffff 0102030405060708"), ("control", "randint 0 fffffffffffffff 0102030405060708")):
         p = subprocess.run([exe], input=(line + "\n").encode(), stdout=subprocess.PIPE, stderr=subprocess.PIPE,
